@@ -17,7 +17,7 @@ CHECKS = {
     "C14": dict(
         level="fault_enumeration",
         runs=[dict(name="oom", target="h_oom")],
-        deadline=dict(quick=150, thorough=1500),
+        deadline=dict(quick=300, thorough=2250),
         rule="for every scenario (container/event-loop operation history up to the depth bound, one request per network/netbuf/http kind, one call per plain function) a fault-free run counts the N allocations made by library code; then every k in 1..N is refused once and persistently (one forked child each). A case is non-trivial (and distinct by (scenario, k, mode)) when the refused allocation was reached and a library call reported failure through its return value.",
         bounds=dict(quick="histories of depth <=3 (queue 5, map 4)", thorough="histories of depth <=4 (queue 6, map 5)"),
         assumptions=["malloc/calloc/realloc/free of all objects in the executable wrapped with -Wl,--wrap; libc-internal allocations (stdio, getaddrinfo) are not failed",
